@@ -300,7 +300,7 @@ func (s *state) heap(name, elemSort string) string {
 		srt = s.heapSortOf(elemSort)
 	}
 	gen := s.gen
-	if s.cutMode && !s.u.mayModify(name) {
+	if s.cutMode && !s.u.mayModify(name) && !strings.Contains(gen, "~") {
 		gen = "" // not in the unit's modifies clause: still the entry heap
 	}
 	q := s.u.declare(name+"@0"+gen, srt)
